@@ -137,6 +137,15 @@ func projAssignment(ctx *verifapi.LanguageContext, a verifapi.Assignment) J {
 	if a.Value.Constant != nil {
 		j["const"] = projVal(a.Value.Constant)
 	}
+	if a.Value.Envelope != nil && a.Value.Argument == nil {
+		// disjunction_as_options: the argument sits inside the envelope of the union struct
+		for _, ev := range a.Value.Envelope.Values {
+			if ev.Value.Argument != nil {
+				j["arg"] = ev.Value.Argument.Name
+				break
+			}
+		}
+	}
 	if len(a.Path) > 0 {
 		last := a.Path[len(a.Path)-1]
 		if last.Index != nil && last.Index.Argument != nil {
